@@ -750,9 +750,14 @@ def lift_multi_byte(
             def advance() -> None:
                 op_il_math = il.sub if reverse else il.add
                 # Advance pointer by element width 'w'
-                ptr.lift_assign(
-                    il, op_il_math(3, ptr.lift(il), il.const(3, w))
-                )  # ptr is 3 bytes
+                new_addr = op_il_math(3, ptr.lift(il), il.const(3, w))
+                if isinstance(op, IMem8):
+                    # (m++) / (m--) count within the 256-byte internal memory,
+                    # as MVL/EXL and the LLAMA core do
+                    offset = il.sub(3, new_addr, il.const(3, INTERNAL_MEMORY_START))
+                    wrapped = il.and_expr(3, offset, il.const(3, 0xFF))
+                    new_addr = il.add(3, il.const(3, INTERNAL_MEMORY_START), wrapped)
+                ptr.lift_assign(il, new_addr)  # ptr is 3 bytes
         else:  # Register operand
             if reg_source_first_byte_only and not is_dest_op:
                 # DADL/DSBL register source uses the register value for the
